@@ -74,6 +74,7 @@ class Exec(Verifier):
         for code in fr.ghost_before.get(id(s), ()):
             self.run_ghost(code)
         self.abort_point(s, "before")
+        self.rely_step()
         m = getattr(self, "st_" + type(s).__name__, None)
         if m is None:
             raise Unsupported("statement %s" % type(s).__name__)
@@ -97,6 +98,22 @@ class Exec(Verifier):
             self.assume(self.typeof(r) == self.class_id("ConductorAbort"))
             raise RaiseSig(SymExc("ConductorAbort", exact=True, val=V(Ty("ref", "ConductorAbort"), r),
                                   origin="async abort %s `%s`" % (phase, header_text(s))))
+
+    def rely_step(self):
+        """Interference by an asynchronous signal handler (rely condition of the contract)."""
+        con = self.frame.contract
+        if con is None or not getattr(con, "interference", None) or self.in_ghost or self.spec_depth:
+            return
+        mods, clauses = con.interference
+        old_heap = dict(self.st.heap)
+        self.havoc(mods, dict(self.st.loc))
+        saved = self.old_heap
+        self.old_heap = old_heap
+        try:
+            for cl in clauses:
+                self.assume(self.spec(cl, dict(self.st.loc)))
+        finally:
+            self.old_heap = saved
 
     def check_ppi(self, s):
         con = self.frame.contract
